@@ -281,6 +281,13 @@ func applyChange(content string, lines []string, change TextDocumentContentChang
 	endOffset := positionToOffset(lines, change.Range.End)
 
 	// Build new content
+	if startOffset > len(content) {
+		startOffset = len(content)
+	}
+	if endOffset < startOffset {
+		endOffset = startOffset
+	}
+
 	var result strings.Builder
 	result.WriteString(content[:startOffset])
 	result.WriteString(change.Text)
@@ -293,6 +300,12 @@ func applyChange(content string, lines []string, change TextDocumentContentChang
 
 // positionToOffset converts a Position to a byte offset
 func positionToOffset(lines []string, pos Position) int {
+	if pos.Line < 0 {
+		return 0
+	}
+	if pos.Character < 0 {
+		pos.Character = 0
+	}
 	offset := 0
 	for i := 0; i < pos.Line && i < len(lines); i++ {
 		offset += len(lines[i]) + 1 // +1 for newline
